@@ -645,7 +645,9 @@ def _thread_start(self):
         self._det_state = None
         raise
     # starting a thread is a visible operation: the child may run before the parent continues
-    s.yield_point(f"started {ts.name}")
+    # (not when the starter is the construction context of Scheduler.create(): nothing runs yet)
+    if s.me().name != "creator":
+        s.yield_point(f"started {ts.name}")
 
 
 def _thread_join(self, timeout=None):
